@@ -286,6 +286,15 @@ def parent_flags_fn(kind, strict):
                 "mismatch_seq2": (Parent(id="chrA", sequence=sq("ACGT" * 8)), Parent(id="chrA", sequence=sq("TTGA" * 8))),
                 "mismatch_type": (Parent(id="chrA", sequence_type=SequenceType.CHROMOSOME), Parent(id="chrA", sequence_type="plasmid")),
                 "mismatch_grandparent": (Parent(id="chrA", parent=Parent(id="asm1")), Parent(id="chrA", parent=Parent(id="asm2"))),
+                # the same names at every level, but the system sits at a DIFFERENT PLACE (or strand) on its own parent: two different coordinate systems
+                "mismatch_placement": (Parent(id="win", sequence_type="region", parent=Parent(id="chrA", sequence_type=SequenceType.CHROMOSOME,
+                                                                                                location=SingleInterval(100, 200, PLUS))),
+                                       Parent(id="win", sequence_type="region", parent=Parent(id="chrA", sequence_type=SequenceType.CHROMOSOME,
+                                                                                                location=SingleInterval(500, 600, PLUS)))),
+                "mismatch_placement_strand": (Parent(id="win", sequence_type="region", parent=Parent(id="chrA", sequence_type=SequenceType.CHROMOSOME,
+                                                                                                       location=SingleInterval(100, 200, PLUS))),
+                                              Parent(id="win", sequence_type="region", parent=Parent(id="chrA", sequence_type=SequenceType.CHROMOSOME,
+                                                                                                       location=SingleInterval(100, 200, MINUS)))),
                 "same_seq": (Parent(id="chrA", sequence=sq("ACGT" * 8)), Parent(id="chrA", sequence=sq("ACGT" * 8))),
             }[kind]
         else:
@@ -350,6 +359,58 @@ def many_blocks_fn(k, strand, op):
     return fn
 
 
+def contains_overlapping_fn(sa, sb):
+    """contains() / intersection() with operands whose OWN blocks may overlap, nest or share a start (lengths count such positions more than once): contains is
+    True exactly when every position of the other location is a position of this one. Realised leg, position sets computed natively."""
+
+    def fn(**kw):
+        names = sorted(kw)
+        vals = concretize(*[kw[n] for n in names])
+        kw = dict(zip(names, vals if isinstance(vals, list) else [vals]))
+        with untraced():
+            return bool(body(**kw))
+
+    def body(s0, l0, g1, l1, t0, m0, h1, m1):
+        A = [(s0, s0 + l0), (s0 + l0 + g1, s0 + l0 + g1 + l1)]
+        B = [(t0, t0 + m0), (t0 + m0 + h1, t0 + m0 + h1 + m1)]
+        la, lb = make_location(A, sa, force_compound=True), make_location(B, sb, force_compound=True)
+        pa = {q for a, b in A for q in range(a, b)}
+        pb = {q for a, b in B for q in range(a, b)}
+        want = bool(pb) and pb <= pa
+        ok = la.contains(lb, match_strand=False) is want and la.contains(lb, match_strand=True) is (want and sa is sb)
+        res = la.intersection(lb, match_strand=False)
+        ok = ok and {q for a, b in blocks_of(res) for q in range(a, b)} == (pa & pb)
+        return ok and la.has_overlap(lb, match_strand=False) is bool(pa & pb)
+
+    return fn
+
+
+def overlap_history_fn(sa, sb):
+    """the same questions asked of ONE compound location in a row - block-level about B, span-level about C, block-level about C, and the set operations that
+    ask them internally: every answer is the one a fresh twin gives (a remembered last answer must be keyed on the whole question)"""
+
+    def fn(s0, l0, g1, l1, bs, bl, cs, cl, m1, m3):
+        A = [(s0, s0 + l0), (s0 + l0 + g1, s0 + l0 + g1 + l1)]
+        a = make_location(A, sa, force_compound=True)
+        B, C = [(bs, bs + bl)], [(cs, cs + cl)]
+        b, c = make_location(B, sb), make_location(C, sb)
+        same = sa is sb
+        span = [(A[0][0], A[1][1])]
+        r1 = a.has_overlap(b, match_strand=m1)
+        r2 = a.has_overlap(c, match_strand=m3, full_span=True)
+        r3 = a.has_overlap(c, match_strand=m3)
+        conds = [IFF(r1, AND(overlap_spec(A, B), same or not m1)), IFF(r2, AND(overlap_spec(span, C), same or not m3)), IFF(r3, AND(overlap_spec(A, C), same or not m3))]
+        # ... and the operations that ask the same question internally, afterwards
+        res = a.intersection(c, match_strand=m3)
+        p = cs
+        conds.append(mult(p, blocks_of(res)) == ITE(AND(member(p, A), same or not m3), 1, 0))
+        d = a.minus(c, match_strand=m3)
+        conds.append(mult(p, blocks_of(d)) == ITE(AND(member(p, A), NOT(AND(same or not m3, True))), 1, 0))
+        return AND(*conds)
+
+    return fn
+
+
 def many_many_fn(k, sa, sb, op):
     """BOTH operands with many blocks (k x k block pairs; common length and gap each, one block of each operand shorter or longer - down to a ZERO-length
     block, which overlaps nothing). Realised leg: the solver enumerates the layouts, the body runs natively and compares position sets."""
@@ -362,6 +423,7 @@ def many_many_fn(k, sa, sb, op):
             return bool(body(**kw))
 
     def body(P, La, Lb, bs, d, e, at):
+        e = e if e <= 1 else P + e  # e >= 2: a block long enough to OVERLAP the next block of its own operand
         # both operands periodic with period P (so that they can interleave without sharing a position); block `at` of A is replaced by a block of length e
         # (0 = empty) placed d bases into its period
         A = [(P * i, P * i + La) for i in range(k)]
@@ -379,7 +441,7 @@ def many_many_fn(k, sa, sb, op):
         if op == "intersection":
             res = la.intersection(lb, match_strand=False)
             got = sorted(q for a, b in blocks_of(res) for q in range(a, b))
-            return got == sorted(pa & pb) and bool(wellformed(res))
+            return sorted(set(got)) == sorted(pa & pb) and (len(got) == len(set(got)) or any(x[1] > y[0] for x, y in zip(A, A[1:]))) and bool(wellformed(res, allow_overlap=True))
         if op == "contains":
             return la.contains(lb, match_strand=False) is (bool(pb) and pb <= pa)
         raise KeyError(op)
@@ -632,9 +694,9 @@ def obligations(tier):
             out.append(Obl("parents_%s_strict%d" % (kind, strict), parent_flags_fn(kind, strict), P, _pre2(1, 1), budget=120, cost=4,
                            desc="parent matching: mismatched parents => no overlap/empty intersection/unchanged difference, or MismatchedParentException when strict",
                            bounds="1x1 blocks, parents by id", examples=[_ex2(1, 1, p=5)]))
-    for kind in ("mismatch_seq", "mismatch_seq_rev", "mismatch_seq2", "mismatch_type", "mismatch_grandparent", "same_seq"):
+    for kind in ("mismatch_seq", "mismatch_seq_rev", "mismatch_seq2", "mismatch_type", "mismatch_grandparent", "mismatch_placement", "mismatch_placement_strand", "same_seq"):
         for strict in (False, True):
-            if quick and strict and kind not in ("mismatch_seq", "same_seq"):
+            if quick and strict and kind not in ("mismatch_seq", "same_seq", "mismatch_placement"):
                 continue
             out.append(Obl("parents_%s_strict%d" % (kind, strict), parent_flags_fn(kind, strict), P,
                            (lambda base: (lambda **kw: base(**kw) and kw["as0"] + kw["al0"] <= 32 and kw["bs0"] + kw["bl0"] <= 32))(_pre2(1, 1)), budget=120, cost=4,
@@ -733,6 +795,38 @@ def obligations(tier):
                            desc="%s of a 17-block location (common symbolic block length/gap, one longer block) and a single interval equals position-set semantics" % op,
                            bounds="17 x 1 blocks, unbounded symbolic start/length/gap/extra/interval/probe",
                            examples=[dict(s0=100, L=7, G=3, x=2, bs=118, bl=40, p=130), dict(s0=0, L=1, G=1, x=0, bs=5, bl=1, p=5)]))
+    for sa, sb in ((PLUS, PLUS), (MINUS, PLUS)):
+        out.append(Obl("contains_overlapping_operands_%s_%s" % (sname(sa), sname(sb)), contains_overlapping_fn(sa, sb),
+                       dict(s0=int, l0=int, g1=int, l1=int, t0=int, m0=int, h1=int, m1=int),
+                       lambda s0, l0, g1, l1, t0, m0, h1, m1: s0 == 1 and (l0 == 2 or l0 == 4) and -4 <= g1 and g1 <= 1 and g1 != -3 and (l1 == 1 or l1 == 3) and s0 + l0 + g1 >= 0
+                       and 0 <= t0 and t0 <= 4 and (m0 == 1 or m0 == 3) and (h1 == -2 or h1 == 0 or h1 == 1) and (m1 == 0 or m1 == 2) and t0 + m0 + h1 >= 0,
+                       budget=900, cost=120,
+                       desc="contains() / intersection() / has_overlap() when the blocks of either operand overlap, nest or share a start: contains is True exactly when "
+                            "every position of the other location is covered (a position covered by two blocks counts once)",
+                       bounds="2 x 2 blocks: lengths {2,4} x {1,3} with the second starting 4..-1 before / at / after the first's end, other operand lengths {1,3} x {0,2} "
+                              "starting at 0..4 with signed gap {-2,0,1} (realised)",
+                       examples=[dict(s0=1, l0=4, g1=-2, l1=1, t0=0, m0=1, h1=1, m1=2), dict(s0=1, l0=4, g1=-4, l1=3, t0=2, m0=1, h1=0, m1=2)]))
+    for sa, sb in ((PLUS, PLUS), (PLUS, MINUS)):
+        out.append(Obl("has_overlap_three_call_history_%s_%s" % (sname(sa), sname(sb)), overlap_history_fn(sa, sb),
+                       dict(s0=int, l0=int, g1=int, l1=int, bs=int, bl=int, cs=int, cl=int, m1=bool, m3=bool),
+                       lambda s0, l0, g1, l1, bs, bl, cs, cl, m1, m3: s0 >= 0 and l0 >= 1 and g1 >= 1 and l1 >= 1 and bs >= 0 and bl >= 1 and cs >= 0 and cl >= 1,
+                       budget=900, cost=90,
+                       desc="three questions in a row on one 2-block location - block-level overlap with B, SPAN-level overlap with C, block-level overlap with C - and then "
+                            "intersection and minus with C: each answer is the position-set one (C inside the intron: span-level yes, block-level no)",
+                       bounds="2-block location, two single-interval operands, unbounded symbolic coordinates, both match_strand values each",
+                       examples=[dict(s0=10, l0=5, g1=10, l1=5, bs=12, bl=2, cs=18, cl=3, m1=False, m3=False), dict(s0=10, l0=5, g1=10, l1=5, bs=40, bl=2, cs=12, cl=30, m1=True, m3=True)]))
+    for sa, sb in ((PLUS, PLUS), (PLUS, MINUS)):
+        for op in ("intersection", "contains"):
+            if sa is not sb and (quick or op == "contains"):
+                continue
+            out.append(Obl("%s_many_many_k34_%s_%s" % (op, sname(sa), sname(sb)), many_many_fn(34, sa, sb, op),
+                           dict(P=int, La=int, Lb=int, bs=int, d=int, e=int, at=int),
+                           lambda P, La, Lb, bs, d, e, at: 6 <= P and P <= 7 and 2 <= La and La <= 3 and Lb == 3 and 0 <= bs and bs <= 13 and (d == 0 or d == 3) and
+                           0 <= e and e <= 3 and (at == 1 or at == 20), budget=1800, cost=240, twin=True,
+                           desc="%s of two 34-block locations (1156 block pairs), one block of the first replaced by an empty / 1-nt block or by a block that OVERLAPS the "
+                                "next block of its own operand: position-set semantics (overlapping blocks of one operand must not be added up)" % op,
+                           bounds="34 x 34 blocks; period 6..7, block lengths 2..3 / 3, second operand shifted by 0..13, replaced block 1 / 20 of length 0, 1, period+2, period+3 (realised)",
+                           examples=[dict(P=7, La=2, Lb=3, bs=3, d=3, e=2, at=20), dict(P=6, La=3, Lb=3, bs=9, d=0, e=3, at=1)]))
     for sa, sb in ((PLUS, PLUS), (PLUS, MINUS)):
         for op in (("has_overlap",) if quick else ("has_overlap", "intersection", "contains")):
             if quick and sa is not sb:
